@@ -261,6 +261,26 @@ pub fn build_shannon<K: BoolKind>(mref: &MRefOf<K>, t: &Tt) -> K::F {
     })
 }
 
+/// Fallible Shannon construction (for runs with small capacities)
+pub fn try_build_shannon<K: BoolKind>(mref: &MRefOf<K>, t: &Tt) -> AllocResult<K::F> {
+    fn rec<K: BoolKind>(m: &MgrOf<'_, K>, t: &Tt, v: u32) -> AllocResult<K::F> {
+        if t.is_zero() {
+            return Ok(K::F::f(m));
+        }
+        if t.is_one() {
+            return Ok(K::F::t(m));
+        }
+        let mut v = v;
+        while !t.depends_on(v) {
+            v += 1;
+        }
+        let hi = rec::<K>(m, &t.cofactor(v, true), v + 1)?;
+        let lo = rec::<K>(m, &t.cofactor(v, false), v + 1)?;
+        K::F::var(m, v)?.ite(&hi, &lo)
+    }
+    mref.with_manager_shared(|m| rec::<K>(m, t, 0))
+}
+
 /// Current order as level -> var
 pub fn current_order<MR: ManagerRef>(mref: &MR) -> Vec<u32> {
     mref.with_manager_shared(|m| (0..m.num_levels()).map(|l| m.level_to_var(l)).collect())
